@@ -311,7 +311,7 @@ def build_ops(tier='thorough'):
     add('gc-reuse', _gc_reuse)
     add('clear_caches', _clear)
     if tier == 'quick':
-        # ~45 operations: process forks cost ~12 ms and do not parallelise in this sandbox (about 80/s machine-wide)
+        # 45 operations: process forks cost ~12 ms and do not parallelise in this sandbox (about 80/s machine-wide)
         keep = {'bear(U_is,1.0)', "bear(U_si,'a')", 'bear(B_is,1)', "bear(List_i,['a'])", "bear(list_i,['a'])", 'bear(L1,True)', 'bear(LT,1)',
                 'bear(L1T,1)', 'bear(LT1,1)', 'bear(LT1,True)', 'bear(Eq1,1.0)', 'bear(EqT,1)', 'bear(Eq1f,True)', 'bear(lDA,[DupA()])',
                 'bear(lDB,[DupB()])', 'bear(lDB,[DupA()])', "bear(dDB,{'k': DupB()})", 'bear(DB,DupB())', 'bear(uDB,DupB())', "bear(TSs,'a')",
@@ -321,6 +321,8 @@ def build_ops(tier='thorough'):
                 'bear(GLi,GL([1]))', "bear(GLs,GL(['a']))", 'bear(GLs,GL([1]))', "bear(GL_,GL(['a']))", 'bear(Gs,G())', "scope(dict['Key', int],A)",
                 "scope(dict['Key', int],B)", "scope(tuple[list['Key'], list[int]],A)", "scope(tuple[list['Key'], list[int]],B)",
                 "scope('Key',A)", "scope('Key',B)", 'redefine(1)', 'redefine(2)', 'gc-reuse', 'clear_caches'}
+        keep -= {'bear(B_is,1)', 'bear(LT1,True)', 'bear(Eq1f,True)', "bear(dDB,{'k': DupB()})", 'bear(uDB,DupB())', "bear(unh_s,'a')", 'sub(TSs,TSi)',
+                 'theq(DA,DB)', 'bear(Gs,G())', "bear(lTSs,['a'])"}       # near-duplicates of kept operations (thorough keeps them)
         missing = keep - {n for n, _ in ops}
         assert not missing, missing
         ops = [(n, f) for n, f in ops if n in keep]
